@@ -173,6 +173,7 @@ func checkC17(c *Ctx) {
 	exprS2(emit, c.Thorough())
 	exprS4(emit, 2)
 	exprS5(emit)
+	exprS6(emit)
 	for _, e := range lexShapes() {
 		emit("S3", e)
 		// print commands with directives and arguments
